@@ -28,6 +28,8 @@ package main
 //   [i2] impstep W                     one asyncImport batch            fin | more | idle | err-<class>
 //   [i2] impstep! W                    the same, even for a wallet that is already done
 //   [i2] impsteps W N                  N times impstep, without saying what each returned   ok
+//   [i2] impstepn W B                  one batch with `notify B` handled while the worker waits in suspend (eng_imp_suspend.go)
+//                                      <notify answer>/<impstep answer>
 //   [i2] expired                       volatile height -> confirmed tx map
 //   [i2] mempool                       volatile pending id set
 //   twin W                             observations of W in instance 1 | instance 2
@@ -278,6 +280,10 @@ func (x *irExec) op(in *irInst, a []string) string {
 		return impStep(e, a[1], false)
 	case a[0] == "impstep!" && len(a) == 2:
 		return impStep(e, a[1], true)
+	case a[0] == "impstepn" && len(a) == 3:
+		var n string
+		r := impStepDuring(e, a[1], false, func() { n = notifyChecked(e, []string{"notify", a[2]}) })
+		return n + "/" + r
 	case a[0] == "impsteps" && len(a) == 3:
 		n, err := strconv.Atoi(a[2])
 		if err != nil {
@@ -476,7 +482,19 @@ func importBatch(wm *masswallet.WalletManager, id string) (fin bool, err error) 
 	}
 }
 
-func impStep(e *WEnv, w string, force bool) string {
+func impStep(e *WEnv, w string, force bool) string { return impStepDuring(e, w, force, nil) }
+
+// impStepDuring: `during` (if any) runs exactly once: while the worker waits in suspend when a batch is run, otherwise
+// before the answer is given.
+func impStepDuring(e *WEnv, w string, force bool, during func()) string {
+	ran := false
+	run := func() {
+		if during != nil && !ran {
+			ran = true
+			during()
+		}
+	}
+	defer run()
 	id, ok := e.wallets[w]
 	if !ok {
 		return "bad-op"
@@ -488,7 +506,13 @@ func impStep(e *WEnv, w string, force bool) string {
 			return "idle"
 		}
 	}
-	fin, err := importBatch(e.wm, id)
+	var fin bool
+	var err error
+	if during != nil {
+		fin, err = importBatchDuring(e.wm, id, run)
+	} else {
+		fin, err = importBatch(e.wm, id)
+	}
 	if err != nil {
 		switch err {
 		case masswallet.ErrImportingContinuable:
